@@ -10,7 +10,7 @@
 // Request : {"i":n, "drv":"bolt", "h":[{"op":"Set","k":[1,2],"v":"x","c":true}, ...]}
 // Response: {"i":n, "drv":"bolt", "res":[{...per call...}], "final":[[k,v]...]}
 //
-// Keys are sequences over 0,1,2 = bytes 0x00,'a','b'.  A call flagged "c" is
+// Keys are sequences over 0,1,2 = bytes 0x00,'a','b' (or 0x00,'a',0xff for behaviours flagged "hi").  A call flagged "c" is
 // followed by a full forward scan (View: Seek(""), then Valid/Key/Value/Next
 // until invalid) whose rows are reported as "scan".
 //
@@ -81,7 +81,7 @@ func Unkey(b []byte) []int {
 			out = append(out, 0)
 		case 'a':
 			out = append(out, 1)
-		case 'b':
+		case byteOf[2]:
 			out = append(out, 2)
 		default:
 			out = append(out, 1000+int(c))
@@ -175,7 +175,7 @@ func errText(err error) string {
 }
 
 func (r *runner) cur() map[string]interface{} { return r.steps[r.pc] }
-func (r *runner) op() string                   { s, _ := r.cur()["op"].(string); return s }
+func (r *runner) op() string                  { s, _ := r.cur()["op"].(string); return s }
 func (r *runner) key() []byte {
 	k, _ := r.cur()["k"].([]interface{})
 	return Key(k)
@@ -609,6 +609,12 @@ func broken(res []rec, note string) bool {
 // call panicked or a reset failed is replaced by a fresh one.
 func (h *handler) Handle(req map[string]interface{}) interface{} {
 	resp := rec{"i": req["i"]}
+	// the largest symbol of the alphabet is 'b' or, for behaviours flagged "hi", the largest byte
+	if hi, _ := req["hi"].(bool); hi {
+		byteOf[2] = 0xff
+	} else {
+		byteOf[2] = 'b'
+	}
 	drv, _ := req["drv"].(string)
 	resp["drv"] = drv
 	var hists [][]map[string]interface{}
